@@ -9,6 +9,57 @@ def key(ev):
 
 
 def run(tier, seed, work):
+    rc1 = run_table(tier, seed, work)
+    return run_handlers(tier, seed, work, rc1)
+
+
+def run_handlers(tier, seed, work, rc1):
+    """Second observation point of the property: acceptance of deposits / withdrawal finalisations that rely on the verification.
+    Bridge histories in which only what the inclusion proof is about varies (positions incl. aliases, genuine / truncated / ragged /
+    flipped paths, headers, blocks of one transaction whose path is EMPTY, coinbase outputs at maturity); the verdict of every
+    deposit and finalisation message is fixed by Bridge.tla, whose SPV clause is the Merkle specification's relation."""
+    import json, time
+    from checks import bridge_common as bc
+    t0 = time.time()
+    quick = tier == "quick"
+    evp = os.path.join(verif.EVIDENCE, "C04.json")
+    ev1 = json.load(open(evp))
+    binary = verif.build()
+    jobs = bc.jobs("c04spv", seed + 2, 4 if quick else 20, 40, 6 if quick else 10, mode="spv") + bc.jobs("c04deep", seed + 3, 2 if quick else 8, 40, 3 if quick else 6, mode="deep")
+    hw = os.path.join(work, "handlers")
+    os.makedirs(hw, exist_ok=True)
+    try:
+        paths = verif.run_drivers(binary, jobs, hw)
+    except verif.AppCrash as ac:
+        for name, path, err in ac.crashes:
+            d = verif.save_replay("C04", seed, None, extra_files=[p for p in (path,) if os.path.exists(p)], note="driver %s" % name)
+            open(os.path.join(d, "crash.txt"), "w").write(err[-30000:])
+            print("VIOLATION property=C04 replay=%s" % d)
+            print("  the application took the process down (unrecovered panic in repository code); last lines:\n" + err[-1200:])
+        ev1["violations"] = ev1.get("violations", 0) + len(ac.crashes)
+        json.dump(ev1, open(evp, "w"), indent=1, sort_keys=True)
+        return verif.EXIT_VIOLATION
+    trace = verif.concat([paths[n] for n, _ in jobs], os.path.join(hw, "handlers.ndjson"))
+    n_init = sum(1 for l in open(trace) if '"ev":"init"' in l)
+    rc2 = verif.finish_trace_check("C04", tier, seed, hw, trace, ("Trace_Bridge.tla", "Trace_Bridge_C04.cfg"), bc.key, "model_checking", [], "",
+                                   states=0, transitions=0, t0=t0, boundary=lambda ln: '"ev":"init"' in ln, ntraces=n_init, selftest=False)
+    ev2 = json.load(open(evp))
+    c1, c2 = ev1["coverage"], ev2["coverage"]
+    c1["handler_histories"] = dict(traces=c2.get("traces_validated_against_impl"), events_validated=c2.get("events_validated"),
+                                   cfg="Trace_Bridge_C04.cfg (binds the verdicts of deposit and finalisation messages)", samples=c2.get("samples", [])[:3],
+                                   modes=["spv", "deep"])
+    c1["events_validated"] = c1.get("events_validated", 0) + c2.get("events_validated", 0)
+    c1["traces_validated_against_impl"] = c1.get("traces_validated_against_impl", 0) + c2.get("traces_validated_against_impl", 0)
+    c1["known_findings_reported"] = sorted(set(c1.get("known_findings_reported", []) + c2.get("known_findings_reported", [])))
+    ev1["violations"] = ev1.get("violations", 0) + ev2.get("violations", 0)
+    ev1["wall_s"] = round((ev1.get("wall_s") or 0) + (ev2.get("wall_s") or 0), 1)
+    ev1["assumptions"] = ev1.get("assumptions", []) + ["handler histories: every other condition of the deposit / finalisation rules (script, key, value, "
+                                                       "maturity, status) is modelled too, so a verdict divergence there is also reported here"]
+    json.dump(ev1, open(evp, "w"), indent=1, sort_keys=True)
+    return max(rc1, rc2)
+
+
+def run_table(tier, seed, work):
     cfg = "MC_Merkle_quick.cfg" if tier == "quick" else "MC_Merkle_thorough.cfg"
     inst = 2 if tier == "quick" else 4
     return verif.run_table_check(
